@@ -26,14 +26,31 @@ VARIABLE l
 
 TsOf(c) == IF "ts" \in DOMAIN c THEN c.ts ELSE TS
 
-AllDevs == {"DevInputValueNotForwarded", "DevOverlapMissesConflicts", "DevOverlapFalseConflict",
-            "DevInputObjectNonObjectAccepted", "DevEnumAcceptsString", "DevUnsuppliedVarSkipsArgCheck",
-            "DevDuplicateInputFieldsCollapsed", "DevTypenameNotVisited", "DevNoSingleRootFieldRule",
-            "DevVarDefDirectivesNotVisited"}
-
-RECURSIVE JoinSet(_)
-JoinSet(S) == IF S = {} THEN "" ELSE LET x == CHOOSE y \in S : TRUE IN
-              IF Cardinality(S) = 1 THEN x ELSE x \o "," \o JoinSet(S \ {x})
+\* TLC wraps printed tuples longer than 80 characters, so verdict lines carry index codes; the legend
+\* (index -> name) is printed once per run.
+DevList == <<"DevInputValueNotForwarded", "DevOverlapMissesConflicts", "DevOverlapFalseConflict",
+             "DevInputObjectNonObjectAccepted", "DevEnumAcceptsString", "DevUnsuppliedVarSkipsArgCheck",
+             "DevDuplicateInputFieldsCollapsed", "DevTypenameNotVisited", "DevNoSingleRootFieldRule",
+             "DevVarDefDirectivesNotVisited", "DevDefaultOfUnknownListTypePanics">>
+ClauseList == <<"LoneAnonymousOperation", "UniqueOperationNames", "SingleRootFieldSubscription.single",
+                "SingleRootFieldSubscription.introspection", "FieldsOnCorrectType", "FieldsInSetCanMerge",
+                "ScalarLeafs.selectionOnLeaf", "ScalarLeafs.noSelectionOnComposite", "KnownArgumentNames",
+                "UniqueArgumentNames", "ProvidedRequiredArguments", "UniqueFragmentNames", "KnownTypeNames.typeCondition",
+                "KnownTypeNames.variable", "FragmentsOnCompositeTypes", "NoUnusedFragments", "KnownFragmentNames",
+                "NoFragmentCycles", "PossibleFragmentSpreads", "ValuesOfCorrectType.nullForNonNull",
+                "ValuesOfCorrectType.scalar", "ValuesOfCorrectType.enum", "ValuesOfCorrectType.inputObject",
+                "UniqueInputFieldNames", "InputObjectFieldNames", "InputObjectRequiredFields",
+                "KnownDirectives.defined", "KnownDirectives.location", "UniqueDirectivesPerLocation",
+                "UniqueVariableNames", "VariablesAreInputTypes", "NoUndefinedVariables", "NoUnusedVariables",
+                "VariablesInAllowedPosition", "DocumentedRestrictions.uploadOutsideMutation">>
+ASSUME \A i \in 1..Len(DevList) : PrintT(<<"LEGEND", "D", i, DevList[i]>>)
+ASSUME \A i \in 1..Len(ClauseList) : PrintT(<<"LEGEND", "C", i, ClauseList[i]>>)
+PanicDev == "DevDefaultOfUnknownListTypePanics"
+AllDevs == Range(DevList) \ {PanicDev}      \* the switches of Validation.tla
+RECURSIVE Code(_, _, _)
+Code(S, list, i) ==     \* indices of the members of S in list, joined by "."
+  IF i > Len(list) THEN (IF S \subseteq Range(list) THEN "" ELSE "?")
+  ELSE (IF list[i] \in S THEN ToString(i) \o "." ELSE "") \o Code(S, list, i + 1)
 
 \* ---- observation ----
 Rejected(c) == c.obs.parseErr \/ c.obs.validationErr
@@ -61,20 +78,20 @@ Triggered(c, ideal) == {d \in AllDevs : Violations(Ctx(c, TsOf(c), {d})) # ideal
 Explaining(c, ideal) == {D \in SUBSET Triggered(c, ideal) : D # {} /\ Cardinality(D) <= 3 /\ Predict(c, D) = Rejected(c)}
 FirstDev(c, ideal) ==
   LET E == Explaining(c, ideal) IN
-  IF E = {} THEN (IF Rejected(c) THEN "violation:rejected-valid" ELSE "violation:accepted-invalid")
-  ELSE "known:" \o JoinSet(CHOOSE D \in E : \A D2 \in E : Cardinality(D2) >= Cardinality(D))
+  IF E = {} THEN (IF Rejected(c) THEN "v:rejected-valid" ELSE "v:accepted-invalid")
+  ELSE "k:" \o Code(CHOOSE D \in E : \A D2 \in E : Cardinality(D2) >= Cardinality(D), DevList, 1)
 
 Verdict(c, ideal) ==
-  IF c.obs.problem # "" THEN "violation:problem"
-  ELSE IF c.obs.panic # "" THEN (IF PanicTrigger(c, Ctx(c, TsOf(c), {})) THEN "known:DevDefaultOfUnknownListTypePanics" ELSE "violation:panic")
-  ELSE IF ~WellFormedRejection(c) THEN "violation:malformed-rejection"
+  IF c.obs.problem # "" THEN "v:problem"
+  ELSE IF c.obs.panic # "" THEN (IF PanicTrigger(c, Ctx(c, TsOf(c), {})) THEN "k:" \o Code({PanicDev}, DevList, 1) ELSE "v:panic")
+  ELSE IF ~WellFormedRejection(c) THEN "v:malformed-rejection"
   ELSE IF Rejected(c) = (ideal # {}) THEN "ok"
   ELSE FirstDev(c, ideal)
 
 TInit == l \in {i \in 1..Len(Cases) : i % Chunk = 1 \/ Chunk = 1}
 TNext == /\ l <= Len(Cases)
          /\ LET ideal == Violations(Ctx(Cases[l], TsOf(Cases[l]), {})) IN
-            PrintT(<<"VERDICT", Cases[l].id, Verdict(Cases[l], ideal), JoinSet(ideal)>>)
+            PrintT(<<"VERDICT", Cases[l].id, Verdict(Cases[l], ideal), Code(ideal, ClauseList, 1)>>)
          /\ l % Chunk # 0
          /\ l' = l + 1
 =============================================================================
